@@ -535,6 +535,12 @@ FIXED = [
     {"kind": "blob", "bytes": [120], "name": cps("Data")},
     {"kind": "blob", "bytes": [120, 0], "name": cps("Type")},
     {"kind": "blob", "bytes": [120], "name": cps("/x")},
+    # a refused name wins over a refused content
+    {"kind": "blob", "bytes": [], "name": cps(".")},
+    {"kind": "blob", "bytes": None, "name": []},
+    {"kind": "blob", "bytes": [], "name": cps("a\x00b")},
+    {"kind": "blob", "bytes": None, "name": cps("Type")},
+    {"kind": "blob", "bytes": [], "name": cps("Data")},
     {"kind": "json", "what": "meta", "spice": True, "ops": [{"$d": [[cps("a"), 1]]}, {"$d": [[cps("b"), 2]]}, {"$d": [[cps("c"), {"$bad": 1}]]}]},
     {"kind": "json", "what": "meta", "spice": True, "ops": [{"$d": [[cps("a"), {"$s": cps("1_234567812345678123456781234567")}]]}]},
     {"kind": "json", "what": "meta", "spice": False, "ops": [{"$d": [[cps("a"), 1], [cps("b"), 2]]}, {"$d": [[cps("b"), {"$u": 9}], [cps("c"), None]]}, None, {"$d": [[cps("z"), []]]}]},
@@ -1116,9 +1122,7 @@ def _blob_term(case, obs):
         e = cerr(obs["store_err"])
         if e is None:
             return "false"
-        if case["bytes"] and c08_name_refused(case["name"]):
-            return "agree_name_refused %s %s" % (cbytes(case["name"]), e)
-        return "agree_blob %s %s (Err %s)" % (cbool(is_data), x, e)
+        return "agree_blob_refused %s %s %s" % (cbytes(case["name"]), x, e)
     if case["bytes"] is None or obs["live"] != case["bytes"]:
         return "false"
     ms = []
